@@ -63,14 +63,14 @@ def outcomesAgree (m : Outcome) (r : Real) : Bool :=
 def bstr (b : Bool) : String := if b then "1" else "0"
 
 def processCase (c0 : Case) (verbose : Bool) (owned : List Toks := []) : List String :=
-  -- the real expansion up to the macro's own inert attributes (second pass only, see Obs.stripOwned)
-  -- … but never an attribute the input of this very case contains (there it is the user's: e.g. the second stage of a
-  -- concrete-dependency function, whose input is the trait the first stage generated, documentation included)
-  let ownedHere : List Toks :=
+  -- the real expansion up to the macro's own inert attributes (second pass only, see Obs.stripOwnedToward)
+  let c : Case :=
     match c0.item with
-    | some item => owned.filter (fun a => !(Obs.userAttrs item).any (fun u => decide (u.inner = a)))
-    | none => owned
-  let c : Case := { c0 with real := Obs.stripOwned ownedHere c0.real }
+    | some item =>
+        (match expand c0.variant c0.attr item with
+         | .ok out => { c0 with real := Obs.stripOwnedToward owned out.inside out.after c0.real }
+         | _ => c0)
+    | none => { c0 with real := Obs.stripOwned owned c0.real }
   match c.item with
   | none =>
       -- outside the modelled domain: only the real outcome is reported
